@@ -31,9 +31,18 @@ type Stats struct {
 	RevertedKinds         map[string]int // transaction kinds inside reverted blocks
 	ExpiryReverted        bool           // a reverted block expired >= 2 contracts of one list
 	TriggerStep           int            // the first step at which Trigger became true (-1: never)
+	// the expiration lists the documented operations produce for the whole history
+	Documented   map[uint64][]types.Hash256
+	FailedReorgs int  // manager calls whose reorg failed half-way and was rolled back (applied steps undone in the same call)
+	MixedBlocks  int  // applied blocks carrying v1 and v2 transactions
+	FinalCut     bool // a block at or above the final-cut height was applied
 }
 
 // twinBase returns the checkpoint the twin for tip has to be opened at.
+// TwinBase is the checkpoint the twin of tip has to be opened at (nil: genesis); false when
+// the tip lies below the node's checkpoint.
+func TwinBase(nd *Node, tip *chaingen.Node) (*chaingen.Node, bool) { return twinBase(nd, tip) }
+
 func twinBase(nd *Node, tip *chaingen.Node) (*chaingen.Node, bool) {
 	if nd.Base == nil {
 		return nil, true
@@ -60,6 +69,8 @@ func sectionKind(sec string) string {
 		return "c02-stored-block-or-supplement-differs"
 	case "states", "tip-state":
 		return "c02-stored-state-differs"
+	case "extreme-argument-answers":
+		return "c02-answer-to-extreme-arguments-differs"
 	case "tree-live-nodes":
 		return "c02-accumulator-nodes-differ"
 	case "siacoin-elements":
@@ -188,11 +199,14 @@ func wellFormed(prev *View, d Diffs) error {
 // core's diffs, then at every block boundary the comparison with the linear
 // twin of the store's tip and the proofs of the independent ledger. It stops
 // at the first finding (everything after a divergence is a consequence of it).
-func Judge(nd *Node, tw *Twins) (*Finding, Stats) {
+func Judge(nd *Node, tw *Twins) (_ *Finding, st Stats) {
 	R := nd.T.Env.Net.HardforkV2.RequireHeight
 	A := nd.T.Env.Net.HardforkV2.AllowHeight
-	st := Stats{RevertedKinds: map[string]int{}, TriggerStep: -1}
+	st = Stats{RevertedKinds: map[string]int{}, TriggerStep: -1}
+	appliedInCall := map[[2]int]bool{}
+	failedCall := map[int]bool{}
 	em := NewExpModel(R)
+	defer func() { st.Documented = em.Lists() }()
 	applied := map[int]Diffs{}
 	rr := map[types.Hash256]bool{}
 	var maxH uint64
@@ -213,17 +227,28 @@ func Judge(nd *Node, tw *Twins) (*Finding, Stats) {
 				// core's diff then carries the revised contract in place of the stored one: the
 				// well-formedness law does not hold for this block (see KindReviseResolve)
 				rr[id] = true
-			} else if i > 0 && x.Height <= R {
+			} else if i > 0 && x.Height <= R && nd.Steps[i-1].View != nil {
 				if err := wellFormed(nd.Steps[i-1].View, s.Diffs); err != nil {
 					return &Finding{Kind: "c02-law-diffs-not-wellformed", Detail: fmt.Sprintf("block %d (kinds %v): %v", s.Node, x.Kinds, err), Step: i}, st
 				}
 			}
 			em.Apply(x.Height, s.Diffs)
+			appliedInCall[[2]int{s.Call, s.Node}] = true
+			if len(x.Block.Transactions) > 0 && len(x.Block.V2Transactions()) > 0 {
+				st.MixedBlocks++
+			}
+			if x.Height >= nd.T.Env.Net.HardforkV2.FinalCutHeight {
+				st.FinalCut = true
+			}
 			if x.Height > maxH {
 				maxH = x.Height
 			}
 		} else {
 			st.Reverts++
+			if appliedInCall[[2]int{s.Call, s.Node}] && !failedCall[s.Call] {
+				failedCall[s.Call] = true
+				st.FailedReorgs++
+			}
 			app, ok := applied[s.Node]
 			if !ok {
 				return &Finding{Kind: "c02-revert-of-unapplied-block", Detail: fmt.Sprintf("block %d was reverted but never applied", s.Node), Step: i}, st
@@ -260,6 +285,9 @@ func Judge(nd *Node, tw *Twins) (*Finding, Stats) {
 			if maxH >= A && x.Height <= A {
 				st.CrossAllow = true
 			}
+		}
+		if s.View == nil { // an unobserved step of a quiet node: only the laws about core's diffs are checked
+			continue
 		}
 		// the store writes to the Tree bucket exactly what core's update emits (when the
 		// height gate is open), and nothing otherwise
@@ -317,7 +345,7 @@ func Judge(nd *Node, tw *Twins) (*Finding, Stats) {
 				var fcDetail string
 				for _, d := range Compare(s.View, lin.View) {
 					switch d.Section {
-					case "tree-live-nodes", "expiration-lists", "expiring-ids-served", "supplement-tip-transaction", "supplement-tip-block":
+					case "tree-live-nodes", "expiration-lists", "expiring-ids-served", "supplement-tip-transaction", "supplement-tip-block", "extreme-argument-answers":
 					case "file-contracts":
 						fcDetail = d.Detail
 						for id := range rr {
